@@ -52,6 +52,16 @@ model is told `Im <call>` (Cache.Model.astep: the call for the platform active a
 THAT IS ACTIVE at that point of the history (the harness follows the configure_platform calls itself) and asked the
 same question with the same - possibly omitted - platform argument; configure_platform must leave raw() alone.
 
+BOUNDARY VALUES OF THE ARGUMENTS (round 7): the values handed to the mutators include EMPTY lists / dictionaries and
+sections that hold one (set_component_option '#references' [] / '#executors.pre' [] / '#workflowAttributes.shutdownOn' []
+/ '#variables' {} / '#override' {} ..., through the three entry points; variables set to [] / {}; definitions with empty
+sections handed to update_component / add_component) and list-valued options.  In half of these calls the caller goes
+on to fill ITS OWN object right after a query stored the resolved configuration (query, MutateArg of everything it
+handed in, query): a mutator that keeps the caller's object for 'plain' values (nothing to copy) shows as a read-only
+step that changed raw() and as a stored answer that differs from the from-scratch one.  RefPlatGlobal / RefPlatStage
+(the caller's own write through a live dictionary) store a value of the caller's own, so that a later MutateArg is not
+one more live write.  Family 5 of the exhaustive histories + corpus empty_container_args.json.
+
 Not covered: operations that rename a component (option route `name`/`stage`, update_component with another
 identity); values the C04 model does not interpret (array indices, interpreter, memory/qos converters)."""
 import copy
@@ -130,7 +140,13 @@ ROUTES = [('command', 'arguments'), ('command', 'executable'), ('resourceRequest
           ('override', '@P1', 'command', 'arguments'), ('override', '@P1', 'variables', 'x'),
           ('command', 'nope', 'deep'), ('resourceManager', 'lsf', 'queue'),
           # whole sections: the value is a dictionary (an object the caller can still change after the call)
-          ('command',), ('variables',), ('resourceManager', 'lsf')]
+          ('command',), ('variables',), ('resourceManager', 'lsf'),
+          # (round 7) options whose value is a LIST, and more sections; the value is, in a good share of the calls, an
+          # EMPTY list / dictionary - the boundary where "nothing to copy" shortcuts keep the caller's own object
+          ('references',), ('executors', 'pre'), ('executors', 'post'), ('executors',),
+          ('workflowAttributes', 'shutdownOn'), ('workflowAttributes', 'restartHookOn'), ('workflowAttributes',),
+          ('override',), ('override', '@P1', 'variables'), ('resourceRequest',)]
+LIST_LEAVES = ('references', 'pre', 'post', 'shutdownOn', 'restartHookOn')
 
 
 def fix_stage_keys(o):
@@ -167,8 +183,44 @@ def gen_str_value(rng, var, tag):
     return s
 
 
+def is_empty_container(v):
+    return isinstance(v, (list, dict)) and len(v) == 0
+
+
+def holds_empty_container(v):
+    if isinstance(v, dict):
+        return len(v) == 0 or any(holds_empty_container(x) for x in v.values())
+    if isinstance(v, list):
+        return len(v) == 0 or any(holds_empty_container(x) for x in v)
+    return False
+
+
+def gen_list_value(rng, leaf, tag):
+    """value of a list-valued option; half of them EMPTY (the caller typically fills its list afterwards)"""
+    if rng.random() < 0.5:
+        return []
+    if leaf == 'references':
+        return rng.choice([['stage0.foo:ref'], ['stage0.foo:ref', 'stage1.bar:copy'], ['data/%s.txt:copy' % tag]])
+    if leaf in ('pre', 'post'):
+        return rng.choice([[{'name': 'lsf-dm-in', 'payload': '%s-%%(g)s' % tag}], [{'name': 'lsf-dm-out', 'payload': tag}]])
+    return rng.choice([['KnownIssue'], ['SystemIssue', 'KnownIssue'], ['%s-Issue' % tag]])
+
+
 def gen_route_value(rng, route, tag):
     leaf = route[-1]
+    if leaf in LIST_LEAVES:
+        return gen_list_value(rng, leaf, tag)
+    if leaf in ('command', 'variables', 'lsf', 'executors', 'workflowAttributes', 'override', 'resourceRequest') \
+            and rng.random() < 0.25:
+        return {}               # an EMPTY section (legal: '#variables' {} drops the variables of the component)
+    if leaf == 'executors':
+        return {'pre': gen_list_value(rng, 'pre', tag), 'post': gen_list_value(rng, 'post', tag)}
+    if leaf == 'workflowAttributes':
+        return {'shutdownOn': gen_list_value(rng, 'shutdownOn', tag), 'maxRestarts': rng.randrange(0, 4)}
+    if leaf == 'override':
+        return {'p': {'variables': {}}} if rng.random() < 0.5 else {'p': {'command': {'arguments': 'ov-%s' % tag}}}
+    if leaf == 'resourceRequest':
+        return {'numberProcesses': rng.choice([2, '%(n)s'])}
     if leaf == 'command':
         return {'executable': 'exe-%s' % tag, 'arguments': rng.choice(['%(x)s %(g)s', 'sec-%s' % tag, '%(y)s'])}
     if leaf == 'variables':
@@ -204,6 +256,18 @@ def gen_component(rng, s, n, plats, tag, sparse=False):
             c['override'] = {P: {'command': {'arguments': 'ov-%s %%(x)s' % tag}}}
             if rng.random() < 0.5:
                 c['override'][P]['variables'] = {'x': 'ovx-%s' % tag}
+        # (round 7) list-valued fields and empty sections, so that the routes '#executors.pre', '#references' ... exist
+        # and the definitions handed to update_component / add_component hold EMPTY containers at depth
+        if rng.random() < 0.3:
+            c['references'] = gen_list_value(rng, 'references', tag)
+        if rng.random() < 0.3:
+            c['executors'] = {'pre': gen_list_value(rng, 'pre', tag)}
+            if rng.random() < 0.5:
+                c['executors']['post'] = []
+        if rng.random() < 0.2:
+            c.setdefault('workflowAttributes', {})['shutdownOn'] = gen_list_value(rng, 'shutdownOn', tag)
+        if rng.random() < 0.08:
+            c[rng.choice(['resourceManager', 'resourceRequest', 'override'])] = {}
     return c
 
 
@@ -325,6 +389,24 @@ def gen_ops(rng, plats, ids, nops, stream, live=False):
             return None if rng.random() < 0.8 else ''
         return p
 
+    def reuse_own_object(value, s, n):
+        """(round 7) the caller handed a mutator an object that is / holds an EMPTY container: in half of the cases it
+        goes on to fill ITS OWN object right after a query has stored the resolved configuration (query, MutateArg of
+        everything it handed in so far, query) - the sequence in which a mutator that kept the caller's object shows"""
+        if not is_spec(value) and holds_empty_container(value) and rng.random() < 0.5:
+            p = rng.choice(plats)
+            if rng.random() < 0.7:
+                ops.append(['Query', implicit_or(p, 0.3), s, n])
+            ops.append(['MutateArg', rng.randrange(0, 50), 1])
+            if rng.random() < 0.7:
+                ops.append(['Query', implicit_or(p, 0.3), s, n])
+
+    def maybe_container(value):
+        """(round 7) a variable whose value is an (empty) container - not a text, but the setters take it"""
+        if rng.random() < 0.04:
+            return rng.choice([[], {}, [], {}, ['a'], {'k': 'v'}])
+        return value
+
     while len(ops) < nops:
         k += 1
         tag = 'u%d' % k
@@ -397,7 +479,8 @@ def gen_ops(rng, plats, ids, nops, stream, live=False):
         elif r < 0.54:
             s, n = some_id()
             v = rng.choice(VARS[:3] if rng.random() < 0.9 else ['n'])
-            ops.append(['SetCompVar', s, n, v, gen_str_value(rng, v, tag), rng.randrange(4)])
+            ops.append(['SetCompVar', s, n, v, maybe_container(gen_str_value(rng, v, tag)), rng.randrange(4)])
+            reuse_own_object(ops[-1][4], s, n)
         elif r < 0.59:
             s, n = some_id()
             ops.append(['DelCompVar', s, n, rng.choice(['x', 'x', 'y', 'g']), rng.randrange(4)])
@@ -418,6 +501,7 @@ def gen_ops(rng, plats, ids, nops, stream, live=False):
                     s2, n2 = rng.choice(alive)
                     value = {'@live': [s2, n2, route], 'via': 0, 'else': value}
             ops.append(['SetOption', s, n, route, value, rng.randrange(3)])
+            reuse_own_object(value, s, n)
         elif r < 0.72:
             s, n = some_id()
             # (the interface takes the route as one dotted string: a platform name with a dot splits)
@@ -425,22 +509,22 @@ def gen_ops(rng, plats, ids, nops, stream, live=False):
             ops.append(['DelOption', s, n, route, rng.randrange(3)])
         elif r < 0.75:
             v = rng.choice(['g', 'y', 'n', 'x'])
-            ops.append(['SetGlobal', v, gen_str_value(rng, v, tag)])
+            ops.append(['SetGlobal', v, maybe_container(gen_str_value(rng, v, tag))])
         elif r < 0.78:
             v = rng.choice(['y', 'g', 'x'])
-            ops.append(['SetStage', rng.choice(STAGES), v, gen_str_value(rng, v, tag)])
+            ops.append(['SetStage', rng.choice(STAGES), v, maybe_container(gen_str_value(rng, v, tag))])
         elif r < 0.81:
             v = rng.choice(['g', 'y', 'x'])
-            ops.append(['SetPlatGlobal', some_plat(), v, gen_str_value(rng, v, tag)])
+            ops.append(['SetPlatGlobal', some_plat(), v, maybe_container(gen_str_value(rng, v, tag))])
         elif r < 0.84:
             v = rng.choice(['y', 'g', 'x'])
-            ops.append(['SetPlatStage', some_plat(), rng.choice(STAGES), v, gen_str_value(rng, v, tag)])
+            ops.append(['SetPlatStage', some_plat(), rng.choice(STAGES), v, maybe_container(gen_str_value(rng, v, tag))])
         elif r < 0.86:
             v = rng.choice(['g', 'y'])
-            ops.append(['RefPlatGlobal', some_plat(), v, gen_str_value(rng, v, tag)])
+            ops.append(['RefPlatGlobal', some_plat(), v, maybe_container(gen_str_value(rng, v, tag))])
         elif r < 0.88:
             v = rng.choice(['y', 'g'])
-            ops.append(['RefPlatStage', some_plat(), rng.choice(STAGES), v, gen_str_value(rng, v, tag)])
+            ops.append(['RefPlatStage', some_plat(), rng.choice(STAGES), v, maybe_container(gen_str_value(rng, v, tag))])
         elif r < 0.92:
             s, n = some_id(absent_ok=True) if rng.random() < 0.3 else (rng.choice(STAGES), rng.choice(pool_names))
             c = gen_component(rng, s, n, plats, tag)
@@ -457,6 +541,7 @@ def gen_ops(rng, plats, ids, nops, stream, live=False):
             ops.append(['AddComp', c])
             if (s, n) not in alive:
                 alive.append((s, n))
+            reuse_own_object(c, s, n)
         elif r < 0.96:
             s, n = some_id()
             c = gen_component(rng, s, n, plats, tag, sparse=rng.random() < 0.3)
@@ -476,6 +561,7 @@ def gen_ops(rng, plats, ids, nops, stream, live=False):
                 c = {'@share': {'name': n, 'stage': s, 'command': c['command']},
                      'parts': [kp for kp in gen_share_parts(rng, alive, (s, n)) if kp[0] != 'command' or rng.random() < 0.5]}
             ops.append(['ReplaceComp', s, n, c])
+            reuse_own_object(c, s, n)
         else:
             s, n = some_id()
             ops.append(['DelComp', s, n])
@@ -740,6 +826,11 @@ class Driver(object):
             o = copy.deepcopy(x)
             state.setdefault('args', []).append(o)
             return o
+        def own(o):
+            # a write through a live reference is the CALLER's statement: were it to store the very object it goes on
+            # using, a later change of that object would be one more live write (outside the interface), not a
+            # MutateArg - the caller stores a value of its own
+            return copy.deepcopy(o)
         try:
             if k == 'Query':
                 o, live = self.query(conc, op[1], op[2], op[3])
@@ -827,14 +918,14 @@ class Driver(object):
                     conc.set_platform_stage_variable(op[2], op[3], val(op[4]), op[1])
             elif k == 'RefPlatGlobal':
                 if op[1] is None:
-                    conc.get_platform_global_variables(return_copy=False)[op[2]] = val(op[3])
+                    conc.get_platform_global_variables(return_copy=False)[op[2]] = own(val(op[3]))
                 else:
-                    conc.get_platform_global_variables(op[1], return_copy=False)[op[2]] = val(op[3])
+                    conc.get_platform_global_variables(op[1], return_copy=False)[op[2]] = own(val(op[3]))
             elif k == 'RefPlatStage':
                 if op[1] is None:
-                    conc.get_platform_stage_variables(op[2], return_copy=False)[op[3]] = val(op[4])
+                    conc.get_platform_stage_variables(op[2], return_copy=False)[op[3]] = own(val(op[4]))
                 else:
-                    conc.get_platform_stage_variables(op[2], op[1], return_copy=False)[op[3]] = val(op[4])
+                    conc.get_platform_stage_variables(op[2], op[1], return_copy=False)[op[3]] = own(val(op[4]))
             elif k == 'AddComp':
                 conc.add_component(val(op[1], 1))
             elif k == 'ReplaceComp':
@@ -1194,6 +1285,8 @@ def identity_text(op):
         '%s of stage%s.%s' % (k, src[0], src[1]) for k, src in x.get('parts', []))
 
 
+ARG_SLOT = {'SetCompVar': 4, 'SetOption': 4, 'SetGlobal': 2, 'SetStage': 3, 'SetPlatGlobal': 3, 'SetPlatStage': 4,
+            'RefPlatGlobal': 3, 'RefPlatStage': 4, 'AddComp': 1, 'ReplaceComp': 3}
 READ_ONLY_OPS = ('Query', 'MutateResult', 'MutateArg', 'Invalidate', 'ReadOnly', 'ConfigurePlatform')
 
 
@@ -1335,6 +1428,14 @@ def explore(ctx, cases):
                 ctx.count('argument_identity=%s:%s' % (op[0], 'shares-live-sections' if '@share' in x else
                                                        'live-global-variables' if x['@live'][0] == '@globals' else
                                                        'live-definition' if not x['@live'][2] else 'live-section'))
+            if op[0] in ARG_SLOT and not is_spec(op[ARG_SLOT[op[0]]]):
+                a = op[ARG_SLOT[op[0]]]
+                if is_empty_container(a):
+                    ctx.count('argument_value=%s:empty-%s' % (op[0], type(a).__name__))
+                elif holds_empty_container(a):
+                    ctx.count('argument_value=%s:holds-empty-container' % op[0])
+                elif isinstance(a, list):
+                    ctx.count('argument_value=%s:list' % op[0])
             if op[0] == 'Query':
                 ctx.count('query_outcome=' + ('ok' if o[0] == 'val' else o[1]))
             elif o[0] == 'exc':
@@ -1531,8 +1632,38 @@ EX4_SWEEP = [['Query', None, 0, 'foo'], ['Query', None, 0, 'foo1'], ['Query', 'p
              ['ConfigurePlatform', None], ['Query', None, 0, 'foo'], ['Query', '', 0, 'foo1']]
 
 
+# fifth family (round 7): THE BOUNDARY VALUES OF THE ARGUMENTS - options / variables set to an EMPTY list or dictionary
+# (or to a section that holds one), through the three entry points, and the caller then filling ITS OWN objects
+# (MutateArg of everything handed in so far); list-valued options (references, executors.pre, shutdownOn)
+EX5_DOC = {'platforms': ['default', 'p'],
+           'variables': {'default': {'global': {'g': 'G0', 'n': 2, 'y': 'Y0'}, 'stages': {0: {'y': 'Ys0'}}},
+                         'p': {'global': {'g': 'GP'}}},
+           'components': [
+               {'name': 'foo', 'stage': 0, 'command': {'executable': 'e', 'arguments': '%(x)s %(g)s %(y)s'},
+                'variables': {'x': 'x-foo'}},
+               {'name': 'foo1', 'stage': 0, 'command': {'executable': 'e1', 'arguments': '%(x)s stage0.foo:ref'},
+                'references': ['stage0.foo:ref'], 'variables': {'x': 'x-foo1'},
+                'executors': {'pre': [{'name': 'lsf-dm-in', 'payload': 'in-%(g)s'}], 'post': []},
+                'workflowAttributes': {'shutdownOn': ['KnownIssue']}}]}
+EX5_ALPHABET = [
+    ['Query', 'p', 0, 'foo1'],
+    ['SetOption', 0, 'foo1', ['references'], [], 0],                            # set_component_option
+    ['SetOption', 0, 'foo1', ['executors', 'pre'], [], 1],                      # conf.py setOptionForNode
+    ['SetOption', 0, 'foo', ['variables'], {}, 2],                              # graph.py setOptionForNode
+    ['SetOption', 0, 'foo1', ['workflowAttributes'], {'shutdownOn': []}, 0],    # an empty list one level down
+    ['SetCompVar', 0, 'foo', 'zz', [], 0],                                      # set_component_variable
+    ['MutateArg', 0, 1],
+]
+EX5_SWEEP = [['Query', 'p', 0, 'foo'], ['Query', 'default', 0, 'foo1'], ['Query', 'p', 0, 'foo1'], ['MutateArg', 0, 1],
+             ['Query', 'p', 0, 'foo'], ['Query', 'default', 0, 'foo1'], ['Query', 'p', 0, 'foo1'], ['Query', 'default', 0, 'foo']]
+
+
 def exhaustive_cases(maxlen):
     out = []
+    for L in range(1, maxlen + 1):
+        for seq in itertools.product(EX5_ALPHABET, repeat=L):
+            out.append({'doc': EX5_DOC, 'active': 'p', 'ops': [copy.deepcopy(o) for o in seq] + copy.deepcopy(EX5_SWEEP),
+                        'stream': 'exhaustive'})
     for L in range(1, maxlen + 1):
         for seq in itertools.product(EX_ALPHABET, repeat=L):
             out.append({'doc': EX_DOC, 'active': 'p', 'ops': [copy.deepcopy(o) for o in seq] + EX_SWEEP,
@@ -1615,7 +1746,15 @@ def run(ctx):
                 'the operations are configure_platform(p | None | \'\' | unknown) and ~40% of the queries, ~25% of the '
                 'platform setters / live getters and ~30% of the read-only calls omit the platform argument (None or \'\': '
                 'the call is for the platform active at that moment; the from-scratch object is constructed for that '
-                'platform); non-trivial = '
+                'platform); the option routes include list-valued options (references, executors.pre/post, '
+                'workflowAttributes.shutdownOn/restartHookOn) and whole sections (executors, workflowAttributes, override, '
+                'resourceRequest); half of the list values and a quarter of the section values are EMPTY ([] / {}), ~4% of '
+                'the variable values are containers; after half of the calls that were handed an empty container (or a '
+                'definition holding one) the caller fills its own objects right after a query (Query, MutateArg of all '
+                'arguments, Query); + every history of length <= 3 (thorough: 4) over a 7-operation alphabet (a query, '
+                'set_component_option with [] / {} / a section holding [] through flowir.py, conf.py and graph.py, '
+                'set_component_variable with [], MutateArg of all arguments) followed by a sweep (3 queries, MutateArg, 4 '
+                'queries); non-trivial = '
                 'at least two queries and at least one mutator executed while the cache held entries; distinct by '
                 '(document, history)')
     rng = ctx.rng
@@ -1628,9 +1767,12 @@ def run(ctx):
                                      'over %d operations (queries, 3 read-only calls, 2 mutators) on a document with '
                                      'stage-level blueprints, and over %d operations handed live state (argument identity), '
                                      'and over %d operations with omitted platform arguments and configure_platform '
-                                     '(+ a sweep of 7: implicit / explicit queries, configure_platform(None), implicit queries)'
+                                     '(+ a sweep of 7: implicit / explicit queries, configure_platform(None), implicit queries), '
+                                     'and over %d operations handed EMPTY containers through the three entry points of '
+                                     'set_component_option and set_component_variable, with the caller filling its own '
+                                     'objects afterwards (+ a sweep of 8)'
                                      % (3 if quick else 4, len(EX_ALPHABET), len(EX2_ALPHABET), len(EX3_ALPHABET),
-                                        len(EX4_ALPHABET)))
+                                        len(EX4_ALPHABET), len(EX5_ALPHABET)))
     cases += ex
     cases += random_cases(rng, 420 if quick else 2500, 'prefix')
     cases += random_cases(rng, 200 if quick else 1200, 'meta')
